@@ -16,7 +16,7 @@ func init() {
 		ID:    "C13",
 		Level: "exploration",
 		Rule: "case i: either (a) a request whose (protocol, codec, compression) triple the service accepts (from the negotiation model), with arbitrary extra headers " +
-			"(including control headers of other protocols), query strings, bodies that are not valid in the protocol, declared or unknown lengths, HTTP/1.1 or HTTP/2; or (b) a request to a path " +
+			"(including control headers of other protocols), query strings, absolute-form request targets (scheme and authority in r.URL), bodies that are not valid in the protocol, declared or unknown lengths, HTTP/1.1 or HTTP/2; or (b) a request to a path " +
 			"no endpoint matches (including the late case: a real method of a REST-only service that has no binding, called through its RPC path), in every client form, with an unknown-endpoint handler installed. The downstream handler answers with an arbitrary status, headers, body bytes, write pattern and trailers. " +
 			"oracle: deep equality of a snapshot of the request taken before ServeHTTP (method, URL, RequestURI, protocol version, header multimap, Host, ContentLength, body bytes) with what the " +
 			"downstream handler observed, and of what the handler produced with what the recorder received; requests whose triple the service accepts are compared whichever path they took. non-trivial = the request carries a control header or a body; distinct by (kind, form, headers, body class)",
@@ -226,6 +226,12 @@ func runC13(c *Ctx, i int, r *rand.Rand) {
 			creq.Extra[enc] = []string{"identity"}
 			c.Count("explicit-identity")
 		}
+	}
+	if chance(r, 12) && strings.HasPrefix(creq.RawTarget, "/") {
+		// absolute-form request target (what a client sends to a proxy, or a fronting proxy forwards): net/http puts
+		// scheme and authority into r.URL, and they must still be there downstream
+		creq.RawTarget = pick(r, []string{"http://assets.example.com:8080", "https://api.example.com", "http://user:pw@10.0.0.1:81"}) + creq.RawTarget
+		c.Count("absolute-form-target")
 	}
 	// second build with the final raw target/body
 	built, err = creq.Build(r)
